@@ -6,7 +6,18 @@ profiles structure, prolog, lexis, attrs, entities.  Binder T: every terminal st
 error or end of input) is rendered to bytes (harness/common/tokrender.hpp, lexical freedoms from VERIF_SEED) and parsed
 by SAXParser, SAX2XMLReader, XercesDOMParser, DOMLSParser (with/without filter), the raw XMLDocumentHandler stream,
 each also through parseFirst/parseNext, x IG/WF/DG/SG scanner x namespaces on/off; observation =
-(fatal error or escaped exception) versus the specification's verdict.
+(fatal error or escaped exception) versus the specification's verdict.  A case that ends at the first fatal error is
+rendered as the canonical completion of the prefix (open elements closed, root supplied), so the violating token is the
+only defect of the document.
+
+Genuine defect re-found (known_findings.d/C02.json): "<a/>" + E2 82 (or FF) at end of input is accepted silently.
+
+Mutants (mutants/C02/*.diff), all DETECTED: chardata_no_cdend_check (IGXMLScanner: "]]>" in text accepted),
+wf_endtag_name_not_compared (WFXMLScanner: </b> closes <a>), charref_nonchar_accepted (&#0; &#xFFFE; accepted),
+dg_duplicate_attr_nons (DGXMLScanner, namespaces off: <a x='1' x='2'/> accepted).
+Non-vacuity: flipping one expected verdict makes 80/80 configurations disagree; disabling the end-tag comparison in the
+machine makes TLC report invariant Agree violated.
+VERIF_SMOKE=1 runs the same check on spec/*.smoke.cfg (smaller bounds, a subset of the quick cases).
 """
 import json
 import os
